@@ -24,6 +24,30 @@ ENGINE_ARTEFACTS = [
             "defined behaviour in Rust; CBMC's memset precondition demands a writable object even for size 0"},
 ]
 
+# per-loop unwind bounds (regex on the mangled loop id -> bound), used by the `unwindset` groups
+_MOCK_RULES = [
+    [r"11find_region", 4], [r"10try_access", 5], [r"MockMem5owner", 4], [r"MockMem3run", 9], [r"any_layout", 4],
+    [r"10MockRegion.*(5write|4read)\.", 8],
+    [r"19copy_slice_volatile", 9],
+]
+
+_C02_RULES = _MOCK_RULES + [
+    [r"c023Lay5owner", 4], [r"c023Lay8max_last", 4], [r"c023Lay12range_mapped", 4], [r"c028real_map", 5], [r"c028mock_map", 4],
+    [r"binary_search_by", 4], [r"16from_arc_regions", 4], [r"GuestMemoryMmap.*4iter", 5], [r"4fold", 5], [r"Windows", 4],
+]
+
+_C10_RULES = _C02_RULES + [
+    [r"stable_sort_stub", 5], [r"vec_remove_stub", 4], [r"c1012lay_overlaps", 4], [r"c10.*from_regions_body", 5], [r"c10.*remove_step", 4],
+    [r"5clone", 5], [r"Drain", 5], [r"from_iter", 5], [r"extend", 5], [r"to_vec", 5], [r"9try_fold", 5],
+]
+
+_C14_RULES = _MOCK_RULES + [
+    [r"Script9from_code", 5], [r"c1411model_exact", 5], [r"c1410model_upto", 5], [r"guest_read_body", 5],
+    [r"3c14.*6Script.*12ReadVolatile13read_volatile", 7], [r"3c14.*6Script.*13WriteVolatile14write_volatile", 7],
+    [r"19read_exact_volatile", 5], [r"18write_all_volatile", 5], [r"18read_volatile_from", 5], [r"17write_volatile_to", 5],
+    [r"24read_exact_volatile_from", 5], [r"21write_all_volatile_to", 5],
+]
+
 PROPS = {}
 
 PROPS["C19"] = {
@@ -74,8 +98,11 @@ _VS_BOUNDS = ("slice level: container = every window of a 16-byte 8-aligned buff
 PROPS["C05"] = {
     "groups": [
         {"crate": "std", "quick": ["c05::"], "jobs": 16, "mem_gb": 6, "timeout_s": 900},
+        # (b) page arithmetic of the real AtomicBitmap, (c) end-to-end with the real bitmap, region level with the recording bitmap
+        {"crate": "std", "quick": ["c05e::", "c09::q_p3_s4::set_range", "c09::q_p7_s64::set_range", "c09::q_p4096_w1p_short::set_range", "c09::q_p7_s64::slices", "regn::region_write"],
+         "jobs": 12, "mem_gb": 8, "timeout_s": 900, "stubbed": True},
     ],
-    "bounds": _VS_BOUNDS,
+    "bounds": _VS_BOUNDS + "; (b)/(c): real AtomicBitmap, page sizes 1,3,4,5,7,8,16,4096 as grid points, byte ranges unconstrained; region level: 16-byte raw-pointer region",
     "outside": "writes through raw pointers / references obtained from the library (exempt by the statement)",
     "assumptions": ["Recorder (harness/std/src/recorder.rs) is a Bitmap that logs mark_dirty(offset,len) calls; it sits behind the crate's real BaseSlice"],
 }
@@ -83,8 +110,10 @@ PROPS["C05"] = {
 PROPS["C16"] = {
     "groups": [
         {"crate": "std", "quick": ["c16::"], "jobs": 16, "mem_gb": 6, "timeout_s": 900},
+        {"crate": "std", "quick": ["c05e::", "c09::q_p3_s4::set_range", "c09::q_p7_s64::set_range", "c09::q_p4096_w1p_short::set_range", "c09::q_p1_s2::set_range", "regn::region_"],
+         "jobs": 12, "mem_gb": 8, "timeout_s": 900, "stubbed": True},
     ],
-    "bounds": _VS_BOUNDS,
+    "bounds": _VS_BOUNDS + "; (b)/(c): real AtomicBitmap, page sizes 1,3,4,5,7,8,16,4096 as grid points, byte ranges unconstrained; region level: 16-byte raw-pointer region (reads mark nothing)",
     "outside": "",
     "assumptions": ["'rejected' = rejected before any byte moved; all-or-error forms failing with PartialBuffer have written and must have marked exactly the completed prefix"],
 }
@@ -124,19 +153,19 @@ PROPS["C17"] = {
 
 PROPS["C18"] = {
     "groups": [
-        {"crate": "std", "quick": ["c18::"], "jobs": 8, "mem_gb": 6, "timeout_s": 600},
+        {"crate": "std", "quick": ["c18::", "c18r::region_", "c18r::guest_empty"], "jobs": 8, "mem_gb": 8, "timeout_s": 600, "stubbed": True},
+        {"crate": "std", "quick": ["c18r::gs_read_volatile_from", "c18r::gs_write_all_volatile_to"], "thorough": ["c18r::gs_"],
+         "jobs": 4, "mem_gb": 12, "timeout_s": 1500,
+         "kani_flags": ["-Z", "restrict-vtable"], "stubbed": True, "unwindset": {"default": 1, "rules": _C14_RULES + [[r"copy_slice_volatile", 9]]}},
     ],
     "bounds": "slice level: container = every window of a 16-byte buffer with a recording bitmap, address unconstrained usize (stream forms: addresses valid for a non-empty access), "
-              "empty buffers, objects [u8;0]/[u16;0]/[u64;0], zero-count stream transfers over a <= 3-byte &[u8]/&mut [u8], copies of <= 3 zero-sized elements, empty container",
+              "empty buffers, objects [u8;0]/[u16;0]/[u64;0], zero-count stream transfers over a <= 3-byte &[u8]/&mut [u8], copies of <= 3 zero-sized elements, empty container; "
+              "region level: real GuestRegionMmap (16 bytes), any MemoryRegionAddress; guest level: real default methods / blanket impl over the 2-region mock with symbolic "
+              "layout, ANY guest address (mapped, one past a region, hole, 0, u64::MAX) for buffer/object forms, mapped addresses for zero-count stream forms",
     "outside": "",
     "assumptions": [],
 }
 
-_MOCK_RULES = [
-    [r"11find_region", 4], [r"10try_access", 5], [r"MockMem5owner", 4], [r"MockMem3run", 9], [r"any_layout", 4],
-    [r"10MockRegion.*(5write|4read)\.", 8],
-    [r"19copy_slice_volatile", 9],
-]
 
 PROPS["C03"] = {
     "groups": [
@@ -156,10 +185,6 @@ PROPS["C03"] = {
                     "cffi.rs: sysconf answers a 64-byte page for raw-pointer regions"],
 }
 
-_C02_RULES = _MOCK_RULES + [
-    [r"c023Lay5owner", 4], [r"c023Lay8max_last", 4], [r"c023Lay12range_mapped", 4], [r"c028real_map", 5], [r"c028mock_map", 4],
-    [r"binary_search_by", 4], [r"16from_arc_regions", 4], [r"GuestMemoryMmap.*4iter", 5], [r"4fold", 5], [r"Windows", 4],
-]
 
 PROPS["C02"] = {
     "groups": [
@@ -174,10 +199,6 @@ PROPS["C02"] = {
     "assumptions": ["cffi.rs: sysconf answers a 64-byte page; regions wrap an external pointer that is never dereferenced in the query harnesses"],
 }
 
-_C10_RULES = _C02_RULES + [
-    [r"stable_sort_stub", 5], [r"vec_remove_stub", 4], [r"c1012lay_overlaps", 4], [r"c10.*from_regions_body", 5], [r"c10.*remove_step", 4],
-    [r"5clone", 5], [r"Drain", 5], [r"from_iter", 5], [r"extend", 5], [r"to_vec", 5], [r"9try_fold", 5],
-]
 
 PROPS["C10"] = {
     "groups": [
@@ -235,18 +256,12 @@ PROPS["C13"] = {
     "assumptions": ["twin = the std::io::Read/Write impl of the std Kani compiles (nightly-2026-08-21)", "cffi.rs read/write/__errno_location models"],
 }
 
-_C14_RULES = _MOCK_RULES + [
-    [r"Script9from_code", 5], [r"c1411model_exact", 5], [r"c1410model_upto", 5], [r"guest_read_body", 5],
-    [r"3c14.*6Script.*12ReadVolatile13read_volatile", 7], [r"3c14.*6Script.*13WriteVolatile14write_volatile", 7],
-    [r"19read_exact_volatile", 5], [r"18write_all_volatile", 5], [r"18read_volatile_from", 5], [r"17write_volatile_to", 5],
-    [r"24read_exact_volatile_from", 5], [r"21write_all_volatile_to", 5],
-]
 
 PROPS["C14"] = {
     "groups": [
         # quick: every length<=2 script on the cheap forms, EINTR-first scripts and the guest level by representatives
         # (each of those is a 5-7 minute query); thorough: the complete length<=2 and length-3 grids on all six forms
-        {"crate": "std", "quick": ["c14::q_slice_read_exact::s_z", "c14::q_slice_read_exact::s_h", "c14::q_slice_read_exact::s_tz", "c14::q_slice_read_exact::s_th", "c14::q_slice_read_exact::s_ti", "c14::q_slice_read_exact::s_tt", "c14::q_slice_write_all::s_z", "c14::q_slice_write_all::s_h", "c14::q_slice_write_all::s_tz", "c14::q_slice_write_all::s_th", "c14::q_slice_write_all::s_ti", "c14::q_slice_write_all::s_tt", "c14::q_slice_read_exact::s_it", "c14::q_slice_read_exact::s_ih", "c14::q_slice_write_all::s_it", "c14::q_slice_read_upto", "c14::q_slice_write_upto", "c14::q_guest_read_upto::s_ti", "c14::q_guest_read_exact::s_it"],
+        {"crate": "std", "quick": ["c14::q_slice_read_exact::s_z", "c14::q_slice_read_exact::s_h", "c14::q_slice_read_exact::s_tz", "c14::q_slice_read_exact::s_th", "c14::q_slice_read_exact::s_ti", "c14::q_slice_read_exact::s_tt", "c14::q_slice_write_all::s_z", "c14::q_slice_write_all::s_h", "c14::q_slice_write_all::s_tz", "c14::q_slice_write_all::s_th", "c14::q_slice_write_all::s_ti", "c14::q_slice_write_all::s_tt", "c14::q_slice_read_exact::s_it", "c14::q_slice_read_exact::s_ih", "c14::q_slice_write_all::s_it", "c14::q_slice_read_upto", "c14::q_slice_write_upto", "c14::q_guest_read_upto::s_tt", "c14::q_guest_read_exact::s_it", "c14::q_guest_read_exact::s_tt"],
          "thorough": ["c14::q_", "c14::t_"], "jobs": 6, "mem_gb": 10, "timeout_s": 1500, "timeout_thorough_s": 3600,
          "unwind_is_violation": True,
          "kani_flags": ["-Z", "restrict-vtable"],
@@ -261,4 +276,46 @@ PROPS["C14"] = {
                "(fd level: one call per harness in C13)",
     "assumptions": ["Script (c14.rs) is harness code implementing ReadVolatile/WriteVolatile; it stamps delivered bytes 0xA0+k",
                     "an unwinding-assertion failure in these harnesses is reported as a violation (a retry loop that does not terminate within the script bound)"],
+}
+
+PROPS["C08"] = {
+    "groups": [
+        {"crate": "std", "quick": ["c08::p8", "c08::p65"], "thorough": ["c08::p64", "c08::p128"], "jobs": 12, "mem_gb": 8, "timeout_s": 900, "stubbed": True},
+    ],
+    "bounds": "bitmaps of 8 and 65 pages (thorough: 64 and 128; 1-3 words, page size 1); thread under test runs ONE real operation (set_addr_range/"
+              "reset_addr_range over <= 3 pages starting anywhere, set_bit, reset_bit, get_and_reset, clone) with symbolic arguments; the environment "
+              "(all other threads) performs up to 3 atomic steps in total - each 'mark any page of the word' or 'fetch-and-clear the word' - at solver-chosen "
+              "yield points (before every atomic step of the real operation and of the final real get_and_reset); sequentially consistent memory",
+    "outside": "weaker-than-SC behaviours (all RMWs in the bitmap are SeqCst; Acquire/Release of is_bit_set/clone/reset are not distinguished); more than 3 "
+               "environment steps per operation; environment resets (fetch_and(!bit)) are not in the environment alphabet - resets by the thread under test are",
+    "assumptions": ["Kani stubs (c08.rs) replace core::sync::atomic::atomic_{or,and,load,store,swap} by versions that run the environment and then the caller's step on the same word",
+                    "every atomic step the code under test issues is checked to be in the alphabet (single-bit or, single-bit-clear / zero and)"],
+}
+
+# C07 has no harness family of its own (DESIGN §4 C07): every harness below leaves the guest-chosen arguments (addresses, offsets,
+# lengths, counts) unconstrained, and Kani reports any reachable panic, failed unwrap, arithmetic overflow (overflow checks are on),
+# division by zero, out-of-range index, or loop running past its bound.  The C07 check re-runs the designated "total" harnesses per
+# entry point and fails on any such check (their functional assertions are part of the run as well).
+PROPS["C07"] = {
+    "groups": [
+        {"crate": "std", "quick": ["c01::", "c09::q_p3_s4", "c09::q_p7_s64::", "c09::q_p4096_w1p_short", "c04::write", "c04::read", "c04::o_u64",
+                                    "c13::cursor_reader", "c18::slice_empty", "regn::"],
+         "thorough": ["c04::", "c09::q_", "c13::", "c18::", "c18r::region_", "c18r::guest_empty"],
+         "jobs": 16, "mem_gb": 8, "timeout_s": 900, "unwind_is_violation": True, "stubbed": True},
+        {"crate": "std", "quick": ["c02::real2::check_range", "c02::real2::checked_offset", "c02::real2::get_slice", "c02::real2::host", "c02::mock2::check_range", "c02::real1::find"],
+         "thorough": ["c02::real2", "c02::mock2", "c02::real3::check_range"],
+         "jobs": 8, "mem_gb": 10, "timeout_s": 1200, "timeout_thorough_s": 3600, "stubbed": True, "unwind_is_violation": True,
+         "unwindset": {"default": 4, "rules": _C02_RULES}},
+        {"crate": "std", "quick": ["c03::r1::write", "c03::r1::read"], "thorough": ["c03::r2"],
+         "jobs": 6, "mem_gb": 10, "timeout_s": 1200, "timeout_thorough_s": 3600, "unwind_is_violation": True,
+         "unwindset": {"default": 5, "rules": _MOCK_RULES}},
+    ],
+    "bounds": "entry points covered with every guest-chosen argument unconstrained (full usize / u64 range): all slice derivations and typed/atomic accessors (c01), "
+              "buffer and object accesses on slices (c04) and regions (regn), bitmap range/bit operations (c09), guest-memory queries incl. check_range/checked_offset/"
+              "get_slice/get_host_address on layouts with symbolic 64-bit bases and sizes (c02: regions at 0 and ending at 2^64-2 are instances), guest-memory "
+              "write/read through try_access (c03), cursor adapters with any u64 position (c13), zero-length accesses (c18). Checked build (overflow checks on): "
+              "no reachable overflow there implies identical values in the unchecked build",
+    "outside": "documented program-logic panics (ref_at index, non-power-of-two alignment); constructor-time configuration (AtomicBitmap::enlarge sums, zero-sized "
+               "regions, fds_overlap); container sizes above the harness bounds",
+    "assumptions": ["an unwinding-assertion failure counts as a violation here (a loop that does not terminate within its derived bound)"],
 }
